@@ -35,7 +35,12 @@ def significant(toks):
 
 
 EDITS = ['delete', 'duplicate', 'swap', 'replace_kind', 'literal_kind', 'indent_line',
-         'indent_block', 'truncate', 'stray', 'keyword_swap', 'join_lines', 'replace_type']
+         'indent_block', 'truncate', 'stray', 'keyword_swap', 'join_lines', 'replace_type',
+         'reuse_name', 'doc_ref', 'huge_number']
+HUGE = ['1' + '0' * 400, '-1' + '0' * 400, '1e999', '-1e999', '1e-999', '0.' + '0' * 400 + '1',
+        '1' + '0' * 400 + '.5', '9' * 30, '1e308', '1.8e308', '340282346638528859811704183484516925440',
+        '340282356779733661637539395458142568448']
+REF_TAGS = ['field', 'route', 'type', 'val', 'link', 'nope']
 
 
 def mutate(text, rnd, other_text=None):
@@ -91,6 +96,30 @@ def mutate(text, rnd, other_text=None):
         nls = [j for j in sig if kind_of(toks[j]) == 'nl']
         if nls:
             toks[rnd.choice(nls)] = ' '
+    elif e == 'reuse_name':
+        # give an identifier the name of another identifier of the text: clashes
+        # between definitions of every kind, self references, shadowed fields
+        ids = [j for j in sig if kind_of(toks[j]) == 'id' and toks[j] not in KEYWORDS]
+        if len(ids) >= 2:
+            i, j = rnd.sample(ids, 2)
+            toks[i] = toks[j]
+    elif e == 'doc_ref':
+        # plant a documentation reference in a string
+        strs = [j for j in sig if kind_of(toks[j]) == 'str']
+        ids = [toks[j] for j in sig if kind_of(toks[j]) == 'id' and toks[j] not in KEYWORDS] or ['x']
+        if strs:
+            i = rnd.choice(strs)
+            parts = [rnd.choice(ids) for _ in range(rnd.choice([1, 1, 2, 2, 3, 4]))]
+            target = rnd.choice(['.', '.', '.', ':', '/', '..']).join(parts)
+            if rnd.random() < 0.2:
+                target += rnd.choice([':2', ':x', ':', '.', ''])
+            ref = ':%s:`%s`' % (rnd.choice(REF_TAGS), target)
+            toks[i] = toks[i][:-1] + ' ' + ref + '"'
+    elif e == 'huge_number':
+        nums = [j for j in sig if kind_of(toks[j]) == 'num']
+        if nums:
+            i = rnd.choice(nums)
+        toks[i] = rnd.choice(HUGE)
     elif e == 'splice':
         o = tokenize(other_text)
         so = significant(o) or [0]
